@@ -584,6 +584,19 @@ func (ex *Exec) rangeStart(st *State, x Value, in *ssa.Range) Value {
 					o.IterVals = append(o.IterVals, e.V)
 				}
 			}
+			if n := len(o.IterKeys); st.mapOrderNondet && n >= 2 && n <= 3 {
+				perms := [][]int{{0, 1}, {1, 0}}
+				if n == 3 {
+					perms = [][]int{{0, 1, 2}, {0, 2, 1}, {1, 0, 2}, {1, 2, 0}, {2, 0, 1}, {2, 1, 0}}
+				}
+				pm := perms[ex.chooseValue(st, "maporder", uint64(len(perms)))]
+				ks, vs := make([]Value, n), make([]Value, n)
+				for i, j := range pm {
+					ks[i], vs[i] = o.IterKeys[j], o.IterVals[j]
+				}
+				o.IterKeys, o.IterVals = ks, vs
+				ex.stubs["range over a map: visiting order arbitrary (one path per permutation, maps of 2..3 entries)"] = true
+			}
 		}
 	case Str:
 		if a.Sym != nil {
